@@ -1010,7 +1010,17 @@ func (d *NNSDriver) readback(x *Exec, prev, nn *Node, m, nm *nnsModel, outcome s
 					got = append(got, fmt.Sprintf("%d/%d/%s", ty.Int64(), id.Int64(), db))
 				}
 			}
-			if !ga.Halt || fmt.Sprint(got) != fmt.Sprint(want) {
+			// values are ordered within a type (the statement's "ordered list ... per name and type"); in which order
+			// the types follow one another is the contract's business
+			byType := func(l []string) map[string][]string {
+				m := map[string][]string{}
+				for _, e := range l {
+					t := strings.SplitN(e, "/", 2)[0]
+					m[t] = append(m[t], e)
+				}
+				return m
+			}
+			if !ga.Halt || len(got) != len(want) || fmt.Sprint(byType(got)) != fmt.Sprint(byType(want)) {
 				return viol("getAllRecords", fmt.Sprintf("getAllRecords(%s)=%v %q model %v", n, got, ga.Fault, want), wh)
 			}
 		} else if !live && ga.Halt && !emptyList(ga.Ret0()) {
